@@ -88,6 +88,10 @@ def total(d):
 def shout(text, times=1):
     print(text * times)
     return len(text)
+
+
+def typed(count: int, word: str = 'x') -> str:
+    return word * count
 '''
 
 RISKS = {
@@ -106,6 +110,7 @@ RISKS = {
     'StopIteration': 'i0 = next(iter([]))',
     'OverflowError': 'i0 = int(math.exp(1000))',
     'ImportError': 'import module_that_does_not_exist_xyz',
+    'NameError-in-annotation': 'def _annotated(v: UndefinedTypeName) -> int:\n    return 1',
 }
 
 
@@ -301,6 +306,13 @@ def statement(draw, depth=2, in_loop=False, allow_input=True):
         return '%s = math.%s' % (draw(st.sampled_from(INTS)), draw(st.sampled_from(['floor(i0 / 3)', 'ceil(i1 / 4)', 'isqrt(abs(i2))', 'gcd(i0, 12)'])))
     if k == 20:
         return "assert isinstance(%s, int), 'sanity'" % draw(st.sampled_from(INTS))
+    if k == 20 and draw(st.booleans()):
+        return draw(st.sampled_from([
+            "print(typed.__annotations__['count'].__name__, typed(2, 'ab'))",
+            "i2: int = len(typed.__annotations__)",
+            "from dataclasses import dataclass, fields\n@dataclass\nclass Rec:\n    x: int\n    y: str = 'a'\nprint([f.type.__name__ for f in fields(Rec)], Rec(1))",
+            "def local_typed(n: int = 3) -> list:\n    return [n]\nprint(local_typed.__annotations__['return'] is list, local_typed())",
+            "s1: str = typed(1)"]))
     if k == 21 and not in_loop and draw(st.booleans()):
         return draw(st.sampled_from(["if __name__ == '__main__':\n    print('running as main')", 'print(__name__)', 's1 = __name__']))
     if k == 21:
